@@ -9,6 +9,7 @@ import GoNfsd.Driver.Wal
 import GoNfsd.Driver.Fsck
 import GoNfsd.Driver.BlockMap
 import GoNfsd.Driver.Cache
+import GoNfsd.Driver.NameCache
 
 def main (args : List String) : IO UInt32 :=
   match args with
@@ -23,6 +24,7 @@ def main (args : List String) : IO UInt32 :=
   | ["fsck"] => GoNfsd.Driver.Fsck.main
   | ["blockmap"] => GoNfsd.Driver.BlockMap.main
   | ["cache"] => GoNfsd.Driver.Cache.main
+  | ["dcache"] => GoNfsd.Driver.NameCache.main
   | _ => do
     IO.eprintln "usage: drv <mkfs>"
     return 2
